@@ -328,8 +328,11 @@ func (g *Rig) waitPark(st Step, done chan struct{}) bool {
 		// the model says whether this subscribe creates a trigger whose start goroutine gets there
 		s := g.m.Subs[st.Sub]
 		expect := s.Registered && g.m.Periods[s.Period].Creator == s.Idx && !(st.Split.Point == PtInit && (st.Hook == HookFail || st.StartMode != StartOK))
+		// the subscribe call itself returns at once (the start goroutine is another one)
+		if !g.waitDone(done, "return of "+st.String()) {
+			return false
+		}
 		if !expect {
-			<-done
 			return false
 		}
 		if !g.bus.Wait(currentWatchdog(), func() bool { return g.sched.Parked() != nil }) {
